@@ -259,6 +259,7 @@ def late_directive_level(ctx, corr):
 def correspondence(ctx, corr):
     common.run_family(ctx, corr, 'c09_matrix', {'verbose': [0] if ctx.quick else [0, 1, 2, 3]})
     common.run_family(ctx, corr, 'c09_helper_sweep', {'verbose': [0] if ctx.quick else [0, 2], 'max_extra': 6 if ctx.quick else 12})
+    common.run_family(ctx, corr, 'c09_rerun', {})
     corr.exhaustive = True
     running_loop_level(ctx, corr)
     late_directive_level(ctx, corr)
@@ -266,7 +267,7 @@ def correspondence(ctx, corr):
 
 
 def search(ctx, corr, broken):
-    return common.search_families(ctx, corr, [('c09_matrix', {'verbose': [0, 2]}), ('c09_helper_sweep', {'verbose': [0, 2], 'max_extra': 8})])
+    return common.search_families(ctx, corr, [('c09_matrix', {'verbose': [0, 2]}), ('c09_helper_sweep', {'verbose': [0, 2], 'max_extra': 8}), ('c09_rerun', {})])
 
 
 K_C09_A_TEXT = ">>> import sys\n>>> print(t(0))\n>>> sys.stdout.close()\n>>> print(t(1))\n"
